@@ -53,7 +53,7 @@ def load_hdr(ffi: cffi.FFI, hdr_path: str) -> None:
 
 def create_ffibuilder(**kwargs: Any) -> cffi.FFI:
     ffibuilder = cffi.FFI()
-    ffibuilder.cdef("typedef uint32_t dev_t;")
+    ffibuilder.cdef("typedef uint64_t dev_t;")
 
     # We need to use cdef to tell cffi what functions we need to FFI to. But we
     # don't need the structs (I hope).
